@@ -630,9 +630,20 @@ Definition run_decl (m : Z) (generic : bool) (inst : option fld) (d : decl) (ufs
     end
   else rejected.
 
-Definition run_c19 (ints : list Z) : list Z :=
-  match ints with
-  | m :: f :: g :: nr :: r0 =>
+(* the G component of the encoding: G = k + 100 * B.  k = 0: not generic; k > 0: one type parameter instantiated with
+   field type k - 1.  B is the BOUND STYLE in which the declaration writes the parameter's bounds (0 only the needed
+   ones inline | 1 an extra inline `T: Copy` | 2 everything in an explicit `where` clause).  The macros copy the
+   declaration's generics to their impls (split_for_impl) and ADD their own predicates to whatever where clause is
+   there (align1.rs 46-53: make_where_clause + push), so the style is decoded, range-checked and dropped *)
+Definition g_inst (g : Z) : Z := g mod 100.
+Definition g_style (g : Z) : Z := g / 100.
+Definition g_ok (g : Z) : bool :=
+  (0 <=? g) && (g_style g <=? 2) && ((g_style g =? 0) || negb (g_inst g =? 0)).
+
+(* g is the decoded instantiation component (g_inst) *)
+Definition run_core (m f g : Z) (r : list Z) : list Z :=
+  match r with
+  | nr :: r0 =>
       let inst := if g =? 0 then None else menu (g - 1) in
       match form_of f, parse_items (Z.to_nat nr) r0 with
       | Some fm, Some (items, nv :: r1) =>
@@ -653,5 +664,11 @@ Definition run_c19 (ints : list Z) : list Z :=
           end
       | _, _ => [-1]
       end
+  | [] => [-1]
+  end.
+
+Definition run_c19 (ints : list Z) : list Z :=
+  match ints with
+  | m :: f :: g :: r => if g_ok g then run_core m f (g_inst g) r else [-1]
   | _ => [-1]
   end.
